@@ -205,6 +205,9 @@ func buildItem(class string, reqOp kmip.Operation, good kmip.OperationPayload, i
 		bi.ResultStatus = unknownStatus
 		bi.ResultMessage = msg
 	}
+	if parts[0] != "S" && len(parts) > 2 && parts[2] == "notsupp" {
+		bi.ResultReason = kmip.ResultReasonOperationNotSupported
+	}
 	if parts[0] != "S" && len(parts) > 2 && parts[2] == "pl" {
 		bi.ResponsePayload = good // a status that is not Success decides, whatever the item carries
 	}
